@@ -108,13 +108,15 @@ def merge(results):
 
 # ---------------------------------------------------------------------------- native replay
 _REPLAY_BINS = {}
-def replay_bin(small=False):
+def replay_bin(small=False, chrono=False):
     """build (incrementally) the native executor against /repo's current working tree; small=True: with the
     verif-small-buffer hook of mpd_protocol enabled (8-byte receive buffer)"""
+    if chrono:
+        small = 'chrono'
     if small in _REPLAY_BINS:
         return _REPLAY_BINS[small]
     src = os.path.join(VERIF, 'ws', 'replay')
-    target = os.path.join(engine.scratch_dir(), 'replay-target-small' if small else 'replay-target')
+    target = os.path.join(engine.scratch_dir(), 'replay-target-chrono' if chrono else ('replay-target-small' if small else 'replay-target'))
     env = dict(os.environ)
     env['CARGO_TARGET_DIR'] = target
     env['CARGO_NET_OFFLINE'] = 'true'
@@ -123,7 +125,7 @@ def replay_bin(small=False):
     if not os.path.exists(lock):
         import shutil
         shutil.copy(os.path.join(os.environ.get('VERIF_REPO', '/repo'), 'Cargo.lock'), lock)
-    r = subprocess.run(['cargo', 'build', '--offline', '--quiet'] + (['--features', 'small'] if small else []), cwd=src, env=env,
+    r = subprocess.run(['cargo', 'build', '--offline', '--quiet'] + (['--features', 'chrono'] if chrono else (['--features', 'small'] if small else [])), cwd=src, env=env,
                        stdout=subprocess.PIPE, stderr=subprocess.PIPE, text=True)
     if r.returncode != 0:
         sys.stderr.write(r.stderr[-3000:])
@@ -138,9 +140,9 @@ def hexs(b):
 def unhex(s):
     return b'' if s == '-' else bytes.fromhex(s)
 
-def run_replay(args, timeout=60, small=False):
+def run_replay(args, timeout=60, small=False, chrono=False):
     """run the native executor; returns dict key -> [values] (repeated keys keep order)"""
-    r = subprocess.run([replay_bin(small)] + [str(a) for a in args], stdout=subprocess.PIPE, stderr=subprocess.PIPE,
+    r = subprocess.run([replay_bin(small, chrono)] + [str(a) for a in args], stdout=subprocess.PIPE, stderr=subprocess.PIPE,
                        text=True, timeout=timeout)
     out = {}
     order = []
